@@ -614,14 +614,17 @@ func allWords(max int) []string {
 // TestC13Words: all 121 failure words of length <= 4, for several size scenarios, run
 // as concurrent batches (the exponential back-off uses the real clock).
 func TestC13Words(t *testing.T) {
-	st := vlib.StatsFor("C13", "words", "exhaustive: all 121 words over {get-latest, fetch-proof, update} failures of length 0..4 followed by success (each word once with plain errors and once with errors that look like a per-request timeout / a cancelled per-request context / gRPC Unavailable), x size scenarios (first use, growth with advancing witness, equality); "+ruleC13)
+	st := vlib.StatsFor("C13", "words", "exhaustive: all 121 words over {get-latest, fetch-proof, update} failures of length 0..4 followed by success (each word once with plain errors and once with errors that look like a per-request timeout / a cancelled per-request context / gRPC Unavailable), x size scenarios (first use, growth with advancing witness, a witness that loses its state between attempts, equality); "+ruleC13)
 	type scen struct {
 		w []int
 		n int
 	}
-	scens := []scen{{[]int{-1}, 7}, {[]int{3, 3, 5, 5, 6}, 9}}
+	// the third scenario is a witness that loses its state between attempts (restarted over
+	// an emptied or in-memory store) and is then fed again by someone else: an attempt that is
+	// told "nothing yet" owes old size 0 and an empty proof whatever earlier attempts saw
+	scens := []scen{{[]int{-1}, 7}, {[]int{3, 3, 5, 5, 6}, 9}, {[]int{3, -1, -1, 5, 5}, 9}}
 	if vlib.Thorough() {
-		scens = append(scens, scen{[]int{4}, 4}, scen{[]int{-1, 2, 2, 8, 8}, 8}, scen{[]int{1, 2, 3, 4, 5}, 40}, scen{[]int{0}, 0}, scen{[]int{16, 16, 17}, 33})
+		scens = append(scens, scen{[]int{5, -1, 2, -1, 7}, 9}, scen{[]int{6, 0, 0, 6, -1}, 9}, scen{[]int{4}, 4}, scen{[]int{-1, 2, 2, 8, 8}, 8}, scen{[]int{1, 2, 3, 4, 5}, 40}, scen{[]int{0}, 0}, scen{[]int{16, 16, 17}, 33})
 	}
 	shard, nshards := vlib.Shard()
 	var cases []*FeedCase
